@@ -22,14 +22,14 @@ theorem drop_width_lt (c : UInt8) (cs : Bytes) :
   omega
 
 /-- The trailing-identifier table has the two words the guard `r >= 128` needs. -/
-def TablesSafe (tb : Tables) : Prop := 2 ≤ tb.trailBits.length
+def TablesSafe (tb : Tables) : Prop := 2 ≤ tb.trailBits.length ∧ ∀ kv ∈ tb.basic, kv.2 ≠ TokType.eof
 
 theorem identTrail_np (tb : Tables) (h : TablesSafe tb) (r : Nat) : ∃ bv, identTrail tb.trailBits r = .ok bv := by
   unfold identTrail
   split
   · exact ⟨false, rfl⟩
   · rename_i hr
-    have : r / 64 < tb.trailBits.length := by unfold TablesSafe at h; omega
+    have : r / 64 < tb.trailBits.length := by have := h.1; omega
     rw [List.getElem?_eq_getElem this]
     exact ⟨_, rfl⟩
 
@@ -132,50 +132,59 @@ open Jmes.Utf8
 
 /-- What one loop iteration guarantees. -/
 def StepOK (total : Nat) (n : Nat) : Step → Prop
-  | .tok t rest => rest.length < n ∧ t.pos ≤ total
+  | .tok t rest => rest.length < n ∧ t.pos ≤ total ∧ t.ty ≠ .eof
   | .skip rest => rest.length < n
   | .fail (.syntax off) => 0 ≤ off ∧ off ≤ total
   | .fail (.other _) => True
   | .crash _ => False
 
+theorem lookupNat_mem {α} (k : Nat) (v : α) : ∀ l : List (Nat × α), lookupNat k l = some v → (k, v) ∈ l
+  | [], h => by simp [lookupNat] at h
+  | (k', v') :: rest, h => by
+    simp only [lookupNat] at h
+    split at h
+    · rename_i hk; cases h; subst hk; simp
+    · exact List.mem_cons_of_mem _ (lookupNat_mem k v rest h)
+
 theorem stepAt_ok (tb : Tables) (h : TablesSafe tb) (total n : Nat) (r : Nat) (cur rest : Bytes) (start : Nat)
     (hw : rest.length < n) (hn : n ≤ total) (hst : start ≤ total) : StepOK total n (stepAt tb total r cur rest start) := by
-  have two_ok : ∀ (second : Nat) (matched single : TokType), StepOK total n (two r rest start second matched single) := by
-    intro second matched single
+  have two_ok : ∀ (second : Nat) (matched single : TokType), matched ≠ .eof → single ≠ .eof →
+      StepOK total n (two r rest start second matched single) := by
+    intro second matched single hm hsg
     unfold two
     cases rest with
-    | nil => exact ⟨hw, hst⟩
+    | nil => exact ⟨hw, hst, hsg⟩
     | cons c' rest' =>
       dsimp only []
       split
-      · exact ⟨by simp only [List.length_cons] at *; omega, hst⟩
-      · exact ⟨hw, hst⟩
+      · exact ⟨by simp only [List.length_cons] at *; omega, hst, hm⟩
+      · exact ⟨hw, hst, hsg⟩
   unfold stepAt
   by_cases c0 : identStart tb.startBits r = true
   · rw [if_pos c0]
     obtain ⟨v, rest', hr, hl⟩ := scanIdent_ok tb h rest.length rest
     rw [hr]
-    exact ⟨by omega, hst⟩
+    exact ⟨by omega, hst, by simp⟩
   rw [if_neg c0]
   cases hlk : lookupNat r tb.basic with
-  | some ty => exact ⟨hw, hst⟩
+  | some ty => exact ⟨hw, hst, h.2 _ (lookupNat_mem r ty tb.basic hlk)⟩
   | none =>
   dsimp only []
   by_cases c1 : (r = 0x2D || (0x30 ≤ r && r ≤ 0x39)) = true
   · rw [if_pos c1]
     have := scanDigits_len rest
-    exact ⟨by omega, hst⟩
+    exact ⟨by omega, hst, by simp⟩
   rw [if_neg c1]
   by_cases c2 : r = 0x5B
   · rw [if_pos c2]
     cases rest with
-    | nil => exact ⟨hw, hst⟩
+    | nil => exact ⟨hw, hst, by simp⟩
     | cons c' rest' =>
       simp only [List.length_cons] at hw
       split
-      · rename_i heq; cases heq; exact ⟨by omega, hst⟩
-      · rename_i heq; cases heq; exact ⟨by omega, hst⟩
-      · exact ⟨by simp only [List.length_cons]; omega, hst⟩
+      · rename_i heq; cases heq; exact ⟨by omega, hst, by simp⟩
+      · rename_i heq; cases heq; exact ⟨by omega, hst, by simp⟩
+      · exact ⟨by simp only [List.length_cons]; omega, hst, by simp⟩
   rw [if_neg c2]
   by_cases c3 : r = 0x22
   · rw [if_pos c3]
@@ -187,7 +196,7 @@ theorem stepAt_ok (tb : Tables) (h : TablesSafe tb) (total n : Nat) (r : Nat) (c
       dsimp only []
       cases Json.unquoteString v with
       | none => trivial
-      | some decoded => exact ⟨by omega, Nat.le_trans (Nat.sub_le _ _) (Nat.sub_le _ _)⟩
+      | some decoded => exact ⟨by omega, Nat.le_trans (Nat.sub_le _ _) (Nat.sub_le _ _), by simp⟩
   rw [if_neg c3]
   by_cases c4 : r = 0x27
   · rw [if_pos c4]
@@ -196,7 +205,7 @@ theorem stepAt_ok (tb : Tables) (h : TablesSafe tb) (total n : Nat) (r : Nat) (c
     | some p =>
       obtain ⟨v, rest'⟩ := p
       have := rawBody_len _ _ _ _ hc
-      exact ⟨by omega, Nat.sub_le _ _⟩
+      exact ⟨by omega, Nat.sub_le _ _, by simp⟩
   rw [if_neg c4]
   by_cases c5 : r = 0x60
   · rw [if_pos c5]
@@ -205,25 +214,25 @@ theorem stepAt_ok (tb : Tables) (h : TablesSafe tb) (total n : Nat) (r : Nat) (c
     | some p =>
       obtain ⟨v, rest'⟩ := p
       have := consumeUntil_len _ _ _ _ _ hc
-      exact ⟨by omega, Nat.sub_le _ _⟩
+      exact ⟨by omega, Nat.sub_le _ _, by simp⟩
   rw [if_neg c5]
   by_cases c6 : r = 0x7C
-  · rw [if_pos c6]; exact two_ok _ _ _
+  · rw [if_pos c6]; exact two_ok _ _ _ (by simp) (by simp)
   rw [if_neg c6]
   by_cases c7 : r = 0x3C
-  · rw [if_pos c7]; exact two_ok _ _ _
+  · rw [if_pos c7]; exact two_ok _ _ _ (by simp) (by simp)
   rw [if_neg c7]
   by_cases c8 : r = 0x3E
-  · rw [if_pos c8]; exact two_ok _ _ _
+  · rw [if_pos c8]; exact two_ok _ _ _ (by simp) (by simp)
   rw [if_neg c8]
   by_cases c9 : r = 0x21
-  · rw [if_pos c9]; exact two_ok _ _ _
+  · rw [if_pos c9]; exact two_ok _ _ _ (by simp) (by simp)
   rw [if_neg c9]
   by_cases c10 : r = 0x3D
-  · rw [if_pos c10]; exact two_ok _ _ _
+  · rw [if_pos c10]; exact two_ok _ _ _ (by simp) (by simp)
   rw [if_neg c10]
   by_cases c11 : r = 0x26
-  · rw [if_pos c11]; exact two_ok _ _ _
+  · rw [if_pos c11]; exact two_ok _ _ _ (by simp) (by simp)
   rw [if_neg c11]
   by_cases c12 : tb.white.contains r = true
   · rw [if_pos c12]; exact hw
@@ -237,7 +246,7 @@ theorem step_ok (tb : Tables) (h : TablesSafe tb) (total : Nat) (c : UInt8) (cs 
 
 /-- Tokens: non-empty, ending with tEOF at `total`, all positions ≤ `total`. -/
 def TokensOK (total : Nat) (ts : List Token) : Prop :=
-  (∃ pre, ts = pre ++ [⟨.eof, [], total⟩]) ∧ ∀ t ∈ ts, t.pos ≤ total
+  (∃ pre, ts = pre ++ [⟨.eof, [], total⟩] ∧ ∀ t ∈ pre, t.ty ≠ .eof) ∧ ∀ t ∈ ts, t.pos ≤ total
 
 def LexOK (total : Nat) : Res (List Token) → Prop
   | .ok ts => TokensOK total ts
@@ -250,7 +259,7 @@ theorem loop_ok (tb : Tables) (h : TablesSafe tb) (total : Nat) : ∀ (fuel : Na
   | 0, _, hf, _ => by omega
   | fuel + 1, [], _, _ => by
     simp only [loop]
-    exact ⟨⟨[], rfl⟩, by intro t ht; simp at ht; subst ht; exact Nat.le_refl _⟩
+    exact ⟨⟨[], rfl, by intro t ht; cases ht⟩, by intro t ht; simp at ht; subst ht; exact Nat.le_refl _⟩
   | fuel + 1, c :: cs, hf, hs => by
     have hst := step_ok tb h total c cs hs
     simp only [loop]
@@ -262,11 +271,15 @@ theorem loop_ok (tb : Tables) (h : TablesSafe tb) (total : Nat) : ∀ (fuel : Na
       cases hl : loop tb total fuel rest with
       | ok ts =>
         rw [hl] at ih
-        obtain ⟨⟨pre, hp⟩, hpos⟩ := ih
-        exact ⟨⟨t :: pre, by simp [hp]⟩, by
+        obtain ⟨⟨pre, hp, hne⟩, hpos⟩ := ih
+        exact ⟨⟨t :: pre, by simp [hp], by
           intro u hu
           rcases List.mem_cons.mp hu with rfl | hu'
-          · exact hst.2
+          · exact hst.2.2
+          · exact hne u hu'⟩, by
+          intro u hu
+          rcases List.mem_cons.mp hu with rfl | hu'
+          · exact hst.2.1
           · exact hpos u hu'⟩
       | err e => rw [hl] at ih; exact ih
       | panic p => rw [hl] at ih; exact ih
